@@ -770,10 +770,17 @@ fn env_step() {
 
 /// Called at the start of every modelled system call.
 /// Returns Some(errno) when the injected fault fires at this call.
+/// Whether every call boundary re-validates the whole tree (the crash-point invariant of C01/C02).
+/// Harnesses whose subject lies above the publication protocol switch it off (publication itself
+/// is still checked at the publishing call, and the tree once more when the operation returns).
+pub static mut CRASH_CHECKS: bool = true;
+
 fn tick(kind: u8, dir: u8, slot: u8) -> Option<i32> {
     let st = k();
     // crash point: the state between the previous call and this one is what a crash leaves
-    assert!(tree_valid(), "KV-C01+C02: every key-named file is a complete read-only value at every call boundary");
+    if unsafe { CRASH_CHECKS } {
+        assert!(tree_valid(), "KV-C01+C02: every key-named file is a complete read-only value at every call boundary");
+    }
     env_step();
     trace(kind, dir, slot);
     st.calls += 1;
